@@ -27,6 +27,7 @@ Print Assumptions C14_monitor_passes.
 (* the window is the code's three seconds *)
 Theorem C14_window : REQ_WINDOW = 3000.
 Proof. reflexivity. Qed.
+Print Assumptions C14_window.
 
 (* Non-vacuity: three connections, a peer that does not deliver, re-request by another announcer,
    arrival, a late announcement (not requested), confirmation. *)
